@@ -47,6 +47,8 @@ def _lambda_src(node):
 def qname(node, force=None):
     """Name the library gives to the node's quantity (what appears as "name" in JSON)."""
     fl = force or node.get("qf", "lambda")
+    if node.get("qf") == "fault":
+        return "q"
     if fl in ("lambda", "cached"):
         return None
     if fl == "def":
@@ -56,11 +58,46 @@ def qname(node, force=None):
     return "n_" + node["f"]
 
 
+class InjectedFault(Exception):
+    """Raised by a fault-injecting quantity (C12)."""
+
+
+# fault plan consulted by quantities of flavour "fault": user functions are the failpoints C12 quantifies over
+FAULT = {"fire": False, "mode": "raise", "fired": 0}
+
+
+def _wrong_value(node):
+    k = node["k"]
+    if k == "Categorize":
+        return 3.5  # a non-NaN number is not a category
+    if k == "Bag":
+        return {"N": "not-a-number", "N2": (1.0,), "S": 3.5}[node["range"]]
+    return "not-a-number"
+
+
+def _fault_quantity(node):
+    f, f2 = node["f"], node.get("f2")
+    wrong = _wrong_value(node)
+    n2 = node["k"] == "Bag" and node["range"] == "N2"
+
+    def q(d):
+        if FAULT["fire"]:
+            FAULT["fired"] += 1
+            if FAULT["mode"] == "raise":
+                raise InjectedFault("injected failure in the quantity of %s" % node["k"])
+            return wrong
+        return (d[f], d[f2]) if n2 else d[f]
+
+    return q
+
+
 def make_quantity(node, force=None):
     """Build a fresh, self-contained (picklable) quantity for a node."""
     from histogrammar.util import cached, named
 
     fl = force or node.get("qf", "lambda")
+    if node.get("qf") == "fault":
+        return _fault_quantity(node)
     if fl == "str":
         return _expr(node)
     ns = {}
